@@ -205,6 +205,9 @@ structure FallbackFacts (W : World E L) (T : Tables E) (c : Ctx E) (e : E) (fb :
   needsBom : needsBomCond T c e = false
   text : TextOk W T c e fb.text
   remainder : RemainderOk W T c e
+  /-- the chunk analysis that preceded the soft failure: no chunk was invalid -/
+  chunks : ∃ p acc, p.bomHere = bomHereOf c e ∧ (lazyOf T c e = false → p.payload = fb.text) ∧
+    (lazyOf T c e = true → p.payload = none) ∧ probeChunks W T c e p = .ok acc ∧ acc.lazyHard = false
 
 theorem fallback_facts {W : World E L} {T : Tables E} {c : Ctx E} {soft : List E} {e : E} {fb : Match E L}
     (h : ProbeShape W T c soft e (.softFail (some fb))) : FallbackFacts W T c e fb := by
@@ -214,10 +217,16 @@ theorem fallback_facts {W : World E L} {T : Tables E} {c : Ctx E} {soft : List E
     · cases hv
     · cases hv
       have hmm := mkMatch_spec hm
-      obtain ⟨_, _, _, hnb, _⟩ := probePrepare_go hp
+      obtain ⟨hbh, _, _, hnb, _, sl0, t00, _, _, hpay⟩ := probePrepare_go hp
       unfold fallbackCond at hcond
       simp only [Bool.and_eq_true] at hcond
-      exact ⟨hmm.1, hmm.2.1, hmm.2.2.2.2.2.1, hmm.2.2.2.1, hmm.2.2.1, hmm.2.2.2.2.1, hcond.1.1, hcond.2, hnb,
-        textOk_of_prepare hp hm, remainder_ok hp hr (by simpa using hcond.1.2)⟩
+      have hlh : acc.lazyHard = false := by simpa using hcond.1.2
+      refine ⟨hmm.1, hmm.2.1, hmm.2.2.2.2.2.1, hmm.2.2.2.1, hmm.2.2.1, hmm.2.2.2.2.1, hcond.1.1, hcond.2, hnb,
+        textOk_of_prepare hp hm, remainder_ok hp hr hlh, ⟨p, acc, hbh, ?_, ?_, hc, hlh⟩⟩
+      · intro hl
+        have : p.payload = some t00 := by rw [hpay]; simp [payloadOf, hl]
+        rw [this, hmm.2.2.2.2.2.2.1 t00 this]
+      · intro hl
+        rw [hpay]; simp [payloadOf, hl]
 
 end Charset
